@@ -1,2 +1,953 @@
-(* Proofs for C15. *)
-From WI Require Import Lib.Base Lib.Info Model.Dn.
+(* Proofs for C15: the text Model/Dn.v prints for a distinguished name is read back by the
+   RFC 4514 reader of Lib/Rfc4514.v as exactly the name.  Contents:
+     1. UTF-8: encode_rune/decode_rune/the reader's UTFMB agree on Unicode scalar values
+     2. Go's range loop over a valid string; escapeRDNAttrValue code point by code point
+     3. utf8.ValidString characterised (valid = encoding of scalar values)
+     4. the reader's state after each escaped/unescaped code point (leading space, leading '#',
+        trailing space)
+     5. hex form; decimal arcs, dotted OIDs, the name table; injectivity of displayed types
+     6. attribute, RDN ('+') and name (',') structure; the round trip and its consequences *)
+From Coq Require Import ZifyN ZifyNat ZifyBool Lia.
+From Coq Require Import DecimalFacts DecimalPos DecimalN.
+From WI Require Import Lib.Base Lib.Info Lib.Utf8 Lib.Rfc4514 Model.Dn.
+Open Scope N_scope.
+(* lia may use the Euclidean equations of / and mod by constants (UTF-8 bit fields, hex digits) *)
+Ltac Zify.zify_post_hook ::= Z.div_mod_to_equations.
+
+(* ---------- Unicode scalar values and their UTF-8 encoding ---------- *)
+Definition scalar (c : N) : Prop := (c < 55296 \/ 57344 <= c) /\ c <= 1114111.
+
+Definition two_ok (b0 b1 c : N) : Prop :=
+  194 <= b0 <= 223 /\ 128 <= b1 <= 191 /\ (b0 - 192) * 64 + (b1 - 128) = c.
+Definition three_ok (b0 b1 b2 c : N) : Prop :=
+  224 <= b0 <= 239 /\ 128 <= b1 <= 191 /\ (b0 = 224 -> 160 <= b1) /\ (b0 = 237 -> b1 <= 159) /\
+  128 <= b2 <= 191 /\ (b0 - 224) * 4096 + (b1 - 128) * 64 + (b2 - 128) = c.
+Definition four_ok (b0 b1 b2 b3 c : N) : Prop :=
+  240 <= b0 <= 244 /\ 128 <= b1 <= 191 /\ (b0 = 240 -> 144 <= b1) /\ (b0 = 244 -> b1 <= 143) /\
+  128 <= b2 <= 191 /\ 128 <= b3 <= 191 /\
+  (b0 - 240) * 262144 + (b1 - 128) * 4096 + (b2 - 128) * 64 + (b3 - 128) = c.
+
+Inductive enc_shape (c : N) : bytes -> Prop :=
+| es1 : c < 128 -> enc_shape c [c]
+| es2 b0 b1 : 128 <= c -> two_ok b0 b1 c -> enc_shape c [b0; b1]
+| es3 b0 b1 b2 : 128 <= c -> three_ok b0 b1 b2 c -> enc_shape c [b0; b1; b2]
+| es4 b0 b1 b2 b3 : 128 <= c -> four_ok b0 b1 b2 b3 c -> enc_shape c [b0; b1; b2; b3].
+
+Lemma encode_shape c : scalar c -> enc_shape c (encode_rune c).
+Proof.
+  intros [Hs Hm]. unfold encode_rune.
+  destruct (c <? 128) eqn:E1. { apply es1. lia. }
+  destruct (c <? 2048) eqn:E2. { apply es2. lia. unfold two_ok. lia. }
+  replace (in_range 55296 57343 c || (1114111 <? c)) with false by (unfold in_range; lia).
+  destruct (c <? 65536) eqn:E3.
+  - apply es3. lia. unfold three_ok. lia.
+  - apply es4. lia. unfold four_ok. lia.
+Qed.
+
+Ltac bool_to v b := replace b with v by (unfold in_range, is_cont, in_range, rng, utf0, rng; lia).
+
+Lemma decode_two b0 b1 c rest : two_ok b0 b1 c -> decode_rune (b0 :: b1 :: rest) = (true, c, 2%nat).
+Proof.
+  intros (H0 & H1 & Hv). unfold decode_rune.
+  bool_to false (b0 <? 128). bool_to true (in_range 194 223 b0). bool_to true (is_cont b1).
+  now rewrite Hv.
+Qed.
+
+Lemma decode_three b0 b1 b2 c rest : three_ok b0 b1 b2 c -> decode_rune (b0 :: b1 :: b2 :: rest) = (true, c, 3%nat).
+Proof.
+  intros (H0 & H1 & Ha & Hb & H2 & Hv). unfold decode_rune.
+  bool_to false (b0 <? 128). bool_to false (in_range 194 223 b0). bool_to true (in_range 224 239 b0).
+  cbv zeta.
+  destruct (N.eqb_spec b0 224), (N.eqb_spec b0 237); try lia;
+  match goal with |- context [in_range ?lo ?hi b1 && is_cont b2] => bool_to true (in_range lo hi b1 && is_cont b2) end;
+  now rewrite Hv.
+Qed.
+
+Lemma decode_four b0 b1 b2 b3 c rest : four_ok b0 b1 b2 b3 c -> decode_rune (b0 :: b1 :: b2 :: b3 :: rest) = (true, c, 4%nat).
+Proof.
+  intros (H0 & H1 & Ha & Hb & H2 & H3 & Hv). unfold decode_rune.
+  bool_to false (b0 <? 128). bool_to false (in_range 194 223 b0). bool_to false (in_range 224 239 b0).
+  bool_to true (in_range 240 244 b0).
+  cbv zeta.
+  destruct (N.eqb_spec b0 240), (N.eqb_spec b0 244); try lia;
+  match goal with |- context [in_range ?lo ?hi b1 && is_cont b2 && is_cont b3] => bool_to true (in_range lo hi b1 && is_cont b2 && is_cont b3) end;
+  now rewrite Hv.
+Qed.
+
+Lemma utfmb_two b0 b1 c rest : two_ok b0 b1 c -> utfmb (b0 :: b1 :: rest) = 2%nat.
+Proof. intros (H0 & H1 & Hv). unfold utfmb. bool_to true (rng 194 223 b0 && utf0 b1). reflexivity. Qed.
+
+Lemma utfmb_three b0 b1 b2 c rest : three_ok b0 b1 b2 c -> utfmb (b0 :: b1 :: b2 :: rest) = 3%nat.
+Proof.
+  intros (H0 & H1 & Ha & Hb & H2 & Hv). unfold utfmb.
+  bool_to false (rng 194 223 b0 && utf0 b1).
+  match goal with |- (if ?x then _ else _) = _ => bool_to true x end. reflexivity.
+Qed.
+
+Lemma utfmb_four b0 b1 b2 b3 c rest : four_ok b0 b1 b2 b3 c -> utfmb (b0 :: b1 :: b2 :: b3 :: rest) = 4%nat.
+Proof.
+  intros (H0 & H1 & Ha & Hb & H2 & H3 & Hv). unfold utfmb.
+  bool_to false (rng 194 223 b0 && utf0 b1).
+  match goal with |- (if ?x then _ else _) = _ => bool_to false x end.
+  match goal with |- (if ?x then _ else _) = _ => bool_to true x end. reflexivity.
+Qed.
+
+Definition utf8 (cps : list N) : bytes := flat_map encode_rune cps.
+Definition width (c : N) : nat := length (encode_rune c).
+
+Lemma width_pos c : scalar c -> (1 <= width c)%nat.
+Proof. intro H. unfold width. destruct (encode_shape c H); simpl; lia. Qed.
+
+Lemma drop_app_length {A} (a b : list A) : drop (length a) (a ++ b) = b.
+Proof. induction a; simpl; auto. Qed.
+
+Lemma decode_encode c rest : scalar c ->
+  decode_rune (encode_rune c ++ rest) = (true, c, width c) /\ exists b t, encode_rune c = b :: t.
+Proof.
+  intro H. unfold width. destruct (encode_shape c H) as [Hc|b0 b1 Hc Hk|b0 b1 b2 Hc Hk|b0 b1 b2 b3 Hc Hk]; cbn [app length].
+  - split; [|eauto]. unfold decode_rune. replace (c <? 128) with true by lia. reflexivity.
+  - split; [|eauto]. now apply decode_two.
+  - split; [|eauto]. now apply decode_three.
+  - split; [|eauto]. now apply decode_four.
+Qed.
+
+Fixpoint runes_spec (k : nat) (cps : list N) : list (nat * bool * N * nat) :=
+  match cps with
+  | [] => []
+  | c :: r => (k, true, c, width c) :: runes_spec (k + width c) r
+  end.
+
+Lemma runes_from_step f k s v c sz : s <> [] -> decode_rune s = (v, c, sz) ->
+  runes_from (S f) k s = (k, v, c, sz) :: runes_from f (k + sz) (drop sz s).
+Proof.
+  intros Hne Hd. destruct s as [|b s']; [congruence|].
+  cbn [runes_from]. rewrite Hd. reflexivity.
+Qed.
+
+Lemma runes_from_utf8 cps : Forall scalar cps -> forall fuel k, (length (utf8 cps) <= fuel)%nat ->
+  runes_from fuel k (utf8 cps) = runes_spec k cps.
+Proof.
+  induction 1 as [|c r Hc Hr IH]; intros fuel k Hf.
+  - destruct fuel; reflexivity.
+  - cbn [utf8 flat_map] in *. fold (utf8 r) in *. rewrite app_length in Hf.
+    pose proof (width_pos c Hc) as Hw. unfold width in Hw.
+    destruct fuel as [|f]; [lia|].
+    destruct (decode_encode c (utf8 r) Hc) as [Hd (b & t & Hbt)].
+    assert (Hne : encode_rune c ++ utf8 r <> []) by (rewrite Hbt; discriminate).
+    rewrite (runes_from_step f k _ _ _ _ Hne Hd).
+    unfold width. rewrite drop_app_length. fold (width c).
+    cbn [runes_spec]. f_equal. apply IH. lia.
+Qed.
+
+Lemma runes_utf8 cps : Forall scalar cps -> runes (utf8 cps) = runes_spec 0 cps.
+Proof. intro H. unfold runes. now apply runes_from_utf8. Qed.
+
+(* ---------- escapeRDNAttrValue on valid strings, code point by code point ---------- *)
+Definition is_nil {A} (l : list A) : bool := match l with [] => true | _ => false end.
+Definition escaped_here (first last : bool) (c : N) : bool :=
+  always_escaped c || ((c =? 32) && (first || last)) || ((c =? 35) && first).
+Definition esc_piece (nul first last : bool) (c : N) : bytes :=
+  if nul && (c =? 0) then [92; 48; 48]
+  else if escaped_here first last c then 92 :: encode_rune c else encode_rune c.
+Fixpoint esc_cps (nul first : bool) (cps : list N) : bytes :=
+  match cps with
+  | [] => []
+  | c :: r => esc_piece nul first (is_nil r) c ++ esc_cps nul false r
+  end.
+
+Lemma utf8_nil_iff cps : Forall scalar cps -> (length (utf8 cps) = 0%nat <-> cps = []).
+Proof.
+  intros H. split; [|intros ->; reflexivity].
+  destruct H as [|c r Hc _]; auto. simpl. rewrite app_length. pose proof (width_pos c Hc). unfold width in *. lia.
+Qed.
+
+Lemma escape_runes_spec nul cps : Forall scalar cps -> forall k L, L = (k + length (utf8 cps))%nat ->
+  escape_runes nul L (runes_spec k cps) = esc_cps nul (Nat.eqb k 0) cps.
+Proof.
+  induction 1 as [|c r Hc Hr IH]; intros k L HL; [reflexivity|].
+  simpl utf8 in HL. rewrite app_length in HL. fold (width c) in HL.
+  pose proof (width_pos c Hc) as Hw.
+  simpl. rewrite (IH (k + width c)%nat L) by lia.
+  replace (Nat.eqb (k + width c) 0) with false by (symmetry; apply Nat.eqb_neq; lia).
+  f_equal. unfold esc_piece, escape_here, escaped_here.
+  destruct (nul && (c =? 0)); [reflexivity|].
+  destruct (c =? 32) eqn:E32.
+  - assert (c = 32) by lia. subst c. change (width 32) with 1%nat in *.
+    assert (Hl : Nat.eqb k (L - 1) = is_nil r).
+    { destruct r as [|c2 r2]; simpl is_nil.
+      - simpl in HL. apply Nat.eqb_eq. lia.
+      - apply Nat.eqb_neq. apply Forall_inv in Hr. cbn [utf8 flat_map] in HL. rewrite app_length in HL.
+        pose proof (width_pos c2 Hr). unfold width in *. lia. }
+    rewrite Hl. reflexivity.
+  - rewrite !andb_false_l, !orb_false_r. reflexivity.
+Qed.
+
+Lemma escape_utf8 nul cps : Forall scalar cps -> escape_gen nul (utf8 cps) = esc_cps nul true cps.
+Proof.
+  intro H. unfold escape_gen. rewrite runes_utf8 by assumption.
+  now rewrite (escape_runes_spec nul cps H 0%nat (length (utf8 cps))).
+Qed.
+
+(* ---------- valid UTF-8, as a boolean: every rune Go's range loop yields is valid ---------- *)
+
+Ltac enc_conds c :=
+  unfold encode_rune;
+  repeat match goal with
+  | |- context [c <? ?k] => (replace (c <? k) with true by lia) || (replace (c <? k) with false by lia)
+  | |- context [in_range 55296 57343 c || (1114111 <? c)] =>
+      replace (in_range 55296 57343 c || (1114111 <? c)) with false by (unfold in_range; lia)
+  end.
+
+Lemma decode_valid s c n : decode_rune s = (true, c, n) ->
+  scalar c /\ n = width c /\ s = encode_rune c ++ drop n s.
+Proof.
+  unfold decode_rune, width. destruct s as [|b0 r]; [discriminate|].
+  destruct (b0 <? 128) eqn:E0.
+  { intros [= <- <-]. unfold scalar. enc_conds b0. cbn. repeat split; lia. }
+  destruct (in_range 194 223 b0) eqn:E1.
+  { destruct r as [|b1 r]; [discriminate|]. destruct (is_cont b1) eqn:C1; [|discriminate].
+    intros [= <- <-]. unfold in_range, is_cont, in_range in *.
+    set (c := (b0 - 192) * 64 + (b1 - 128)).
+    assert (Hc : 128 <= c < 2048) by (subst c; lia).
+    unfold scalar. enc_conds c. cbn [length drop app]. repeat split; try lia.
+    f_equal; [subst c; lia|]. f_equal. subst c; lia. }
+  destruct (in_range 224 239 b0) eqn:E2.
+  { destruct r as [|b1 [|b2 r]]; try discriminate. cbv zeta.
+    destruct (in_range (if b0 =? 224 then 160 else 128) (if b0 =? 237 then 159 else 191) b1 && is_cont b2) eqn:C; [|discriminate].
+    intros [= <- <-]. unfold in_range, is_cont, in_range in *.
+    set (c := (b0 - 224) * 4096 + (b1 - 128) * 64 + (b2 - 128)).
+    assert (Hc : 2048 <= c < 65536 /\ (c < 55296 \/ 57344 <= c)).
+    { subst c. destruct (N.eqb_spec b0 224), (N.eqb_spec b0 237); lia. }
+    assert (Hb : 128 <= b1 <= 191 /\ 128 <= b2 <= 191 /\ 224 <= b0 <= 239).
+    { destruct (N.eqb_spec b0 224), (N.eqb_spec b0 237); lia. }
+    clear C.
+    unfold scalar. enc_conds c. cbn [length drop app]. repeat split; try lia.
+    f_equal; [subst c; lia|]. f_equal; [subst c; lia|]. f_equal. subst c; lia. }
+  destruct (in_range 240 244 b0) eqn:E3; [|discriminate].
+  destruct r as [|b1 [|b2 [|b3 r]]]; try discriminate. cbv zeta.
+  destruct (in_range (if b0 =? 240 then 144 else 128) (if b0 =? 244 then 143 else 191) b1 && is_cont b2 && is_cont b3) eqn:C; [|discriminate].
+  intros [= <- <-]. unfold in_range, is_cont, in_range in *.
+  set (c := (b0 - 240) * 262144 + (b1 - 128) * 4096 + (b2 - 128) * 64 + (b3 - 128)).
+  assert (Hc : 65536 <= c <= 1114111).
+  { subst c. destruct (N.eqb_spec b0 240), (N.eqb_spec b0 244); lia. }
+  assert (Hb : 128 <= b1 <= 191 /\ 128 <= b2 <= 191 /\ 128 <= b3 <= 191 /\ 240 <= b0 <= 244).
+  { destruct (N.eqb_spec b0 240), (N.eqb_spec b0 244); lia. }
+  clear C.
+  unfold scalar. enc_conds c. cbn [length drop app]. repeat split; try lia.
+  f_equal; [subst c; lia|]. f_equal; [subst c; lia|]. f_equal; [subst c; lia|]. f_equal. subst c; lia.
+Qed.
+
+Lemma valid_runes_from fuel : forall s k, (length s <= fuel)%nat ->
+  forallb (fun x => match x with (_, v, _, _) => v end) (runes_from fuel k s) = true ->
+  exists cps, Forall scalar cps /\ s = utf8 cps.
+Proof.
+  induction fuel as [|f IH]; intros s k Hlen Hv.
+  - destruct s; [|cbn in Hlen; lia]. exists []. split; [constructor|reflexivity].
+  - destruct s as [|b s']. { exists []. split; [constructor|reflexivity]. }
+    cbn [runes_from] in Hv. destruct (decode_rune (b :: s')) as [[v c] n] eqn:Hd.
+    cbn [forallb] in Hv. apply andb_prop in Hv. destruct Hv as [-> Hv].
+    destruct (decode_valid _ _ _ Hd) as (Hc & Hn & Hs).
+    pose proof (width_pos c Hc) as Hw.
+    assert (Hl : length (b :: s') = (n + length (drop n (b :: s')))%nat).
+    { rewrite Hs at 1. rewrite app_length. unfold width in Hn. lia. }
+    destruct (IH (drop n (b :: s')) (k + n)%nat) as (cps & Hcps & Hrest); [lia|assumption|].
+    exists (c :: cps). split; [now constructor|]. cbn [utf8 flat_map]. fold (utf8 cps). now rewrite <- Hrest.
+Qed.
+
+Lemma valid_utf8_scalars s : valid_utf8 s = true -> exists cps, Forall scalar cps /\ s = utf8 cps.
+Proof. unfold valid_utf8, runes. now apply valid_runes_from. Qed.
+
+Lemma scalars_valid_utf8 cps : Forall scalar cps -> valid_utf8 (utf8 cps) = true.
+Proof.
+  intro H. unfold valid_utf8. rewrite runes_utf8 by assumption. generalize 0%nat.
+  induction cps as [|c r IH]; intro k; [reflexivity|]. cbn. apply IH. now apply Forall_inv_tail in H.
+Qed.
+
+Ltac unfold_classes :=
+  unfold escaped_here, always_escaped, is_sep, is_special, is_escaped, sutf1, lutf1, tutf1, rng in *.
+
+(* ---------- the reader after one character of the escaped text ---------- *)
+Lemma lex_pair_special c X : (c =? 92) || is_special c = true ->
+  lex_value (92 :: c :: X) = push (TPair c) (lex_value X).
+Proof. intro H. cbn [lex_value]. change (is_sep 92) with false. change (92 =? 92) with true. cbv iota. rewrite H. reflexivity. Qed.
+
+Lemma lex_pair_nul X : lex_value (92 :: 48 :: 48 :: X) = push (TPair 0) (lex_value X).
+Proof. reflexivity. Qed.
+
+Lemma lex_raw b X : b < 128 -> is_sep b = false -> b <> 92 -> sutf1 b = true ->
+  lex_value (b :: X) = push (TRaw b) (lex_value X).
+Proof.
+  intros H1 H2 H3 H4. cbn [lex_value]. rewrite H2.
+  replace (b =? 92) with false by lia. replace (b <? 128) with true by lia. rewrite H4. reflexivity.
+Qed.
+
+Lemma lex_two b0 b1 c X : two_ok b0 b1 c -> lex_value (b0 :: b1 :: X) = push (TMb [b0; b1]) (lex_value X).
+Proof.
+  intro H. cbn [lex_value]. rewrite (utfmb_two _ _ _ _ H). destruct H as (H0 & _).
+  replace (is_sep b0) with false by (unfold is_sep; lia).
+  replace (b0 =? 92) with false by lia. replace (b0 <? 128) with false by lia. reflexivity.
+Qed.
+
+Lemma lex_three b0 b1 b2 c X : three_ok b0 b1 b2 c ->
+  lex_value (b0 :: b1 :: b2 :: X) = push (TMb [b0; b1; b2]) (lex_value X).
+Proof.
+  intro H. cbn [lex_value]. rewrite (utfmb_three _ _ _ _ _ H). destruct H as (H0 & _).
+  replace (is_sep b0) with false by (unfold is_sep; lia).
+  replace (b0 =? 92) with false by lia. replace (b0 <? 128) with false by lia. reflexivity.
+Qed.
+
+Lemma lex_four b0 b1 b2 b3 c X : four_ok b0 b1 b2 b3 c ->
+  lex_value (b0 :: b1 :: b2 :: b3 :: X) = push (TMb [b0; b1; b2; b3]) (lex_value X).
+Proof.
+  intro H. cbn [lex_value]. rewrite (utfmb_four _ _ _ _ _ _ H). destruct H as (H0 & _).
+  replace (is_sep b0) with false by (unfold is_sep; lia).
+  replace (b0 =? 92) with false by lia. replace (b0 <? 128) with false by lia. reflexivity.
+Qed.
+
+(* the token the reader must produce for one code point of the value *)
+Definition tok_of (first last : bool) (c : N) : tok :=
+  if c =? 0 then TPair 0
+  else if escaped_here first last c then TPair c
+  else if c <? 128 then TRaw c else TMb (encode_rune c).
+Fixpoint toks (first : bool) (cps : list N) : list tok :=
+  match cps with
+  | [] => []
+  | c :: r => tok_of first (is_nil r) c :: toks false r
+  end.
+
+Definition sep_or_end (rest : bytes) : bool := match rest with [] => true | c :: _ => is_sep c end.
+
+Lemma lex_piece first last c X : scalar c ->
+  lex_value (esc_piece true first last c ++ X) = push (tok_of first last c) (lex_value X).
+Proof.
+  intro Hc. unfold esc_piece, tok_of. cbn [andb].
+  destruct (c =? 0) eqn:E0. { apply lex_pair_nul. }
+  destruct (escaped_here first last c) eqn:Ee.
+  - assert (c < 128) by (unfold_classes; lia).
+    replace (encode_rune c) with [c] by (unfold encode_rune; replace (c <? 128) with true by lia; reflexivity).
+    apply lex_pair_special. unfold_classes; lia.
+  - destruct (encode_shape c Hc) as [H1|b0 b1 H1 Hk|b0 b1 b2 H1 Hk|b0 b1 b2 b3 H1 Hk]; cbn [app].
+    + replace (c <? 128) with true by lia. apply lex_raw; unfold_classes; lia.
+    + replace (c <? 128) with false by lia. now apply lex_two with c.
+    + replace (c <? 128) with false by lia. now apply lex_three with c.
+    + replace (c <? 128) with false by lia. now apply lex_four with c.
+Qed.
+
+Lemma lex_esc cps : Forall scalar cps -> forall first rest, sep_or_end rest = true ->
+  lex_value (esc_cps true first cps ++ rest) = Some (toks first cps, rest).
+Proof.
+  induction 1 as [|c r Hc Hr IH]; intros first rest Hrest.
+  - cbn [esc_cps toks app]. destruct rest as [|b rest']; [reflexivity|].
+    cbn [sep_or_end] in Hrest. cbn [lex_value]. rewrite Hrest. reflexivity.
+  - cbn [esc_cps toks]. rewrite <- app_assoc. rewrite lex_piece by assumption.
+    rewrite IH by assumption. reflexivity.
+Qed.
+
+Lemma toks_bytes cps : Forall scalar cps -> forall first, flat_map tok_bytes (toks first cps) = utf8 cps.
+Proof.
+  induction 1 as [|c r Hc Hr IH]; intro first; [reflexivity|].
+  cbn [toks flat_map utf8]. fold (utf8 r). rewrite IH. f_equal.
+  unfold tok_of.
+  destruct (c =? 0) eqn:E0. { assert (c = 0) by lia. subst. reflexivity. }
+  destruct (escaped_here first (is_nil r) c) eqn:Ee.
+  - assert (c < 128) by (unfold_classes; lia). cbn. unfold encode_rune. replace (c <? 128) with true by lia. reflexivity.
+  - destruct (c <? 128) eqn:E1; cbn; [|reflexivity]. unfold encode_rune. rewrite E1. reflexivity.
+Qed.
+
+Lemma lead_ok_tok last c : scalar c -> lead_ok (tok_of true last c) = true.
+Proof.
+  intro Hc. unfold tok_of. destruct (c =? 0) eqn:E0; [reflexivity|].
+  destruct (escaped_here true last c) eqn:Ee; [reflexivity|].
+  destruct (c <? 128) eqn:E1; [|reflexivity]. cbn [lead_ok]. unfold_classes. lia.
+Qed.
+
+Lemma trail_ok_tok first c : scalar c -> trail_ok (tok_of first true c) = true.
+Proof.
+  intro Hc. unfold tok_of. destruct (c =? 0) eqn:E0; [reflexivity|].
+  destruct (escaped_here first true c) eqn:Ee; [reflexivity|].
+  destruct (c <? 128) eqn:E1; [|reflexivity]. cbn [trail_ok]. unfold_classes. lia.
+Qed.
+
+Lemma trail_ok_last cps : Forall scalar cps -> forall first d, cps <> [] -> trail_ok (last (toks first cps) d) = true.
+Proof.
+  induction 1 as [|c r Hc Hr IH]; intros first d Hne; [congruence|].
+  destruct r as [|c2 r2].
+  - cbn. now apply trail_ok_tok.
+  - cbn [toks]. cbn [toks] in IH.
+    change (last (tok_of first (is_nil (c2 :: r2)) c :: tok_of false (is_nil r2) c2 :: toks false r2) d)
+      with (last (tok_of false (is_nil r2) c2 :: toks false r2) d).
+    apply (IH false d). discriminate.
+Qed.
+
+Lemma toks_string_ok cps : Forall scalar cps -> string_ok (toks true cps) = true.
+Proof.
+  intro H. destruct cps as [|c r]; [reflexivity|].
+  unfold string_ok. cbn [toks]. apply andb_true_intro. split.
+  - apply lead_ok_tok. now apply Forall_inv in H.
+  - change (tok_of true (is_nil r) c :: toks false r) with (toks true (c :: r)).
+    apply trail_ok_last; [assumption|discriminate].
+Qed.
+
+(* ---------- values ---------- *)
+Lemma esc_head_not_sharp cps first rest : Forall scalar cps -> sep_or_end rest = true -> first = true ->
+  starts_with_sharp (esc_cps true first cps ++ rest) = false.
+Proof.
+  intros H Hrest ->. destruct H as [|c r Hc Hr].
+  - cbn. destruct rest as [|b t]; [reflexivity|]. cbn in *. unfold is_sep in Hrest. lia.
+  - cbn [esc_cps]. rewrite <- app_assoc. unfold esc_piece. cbn [andb].
+    destruct (c =? 0) eqn:E0; [reflexivity|].
+    destruct (escaped_here true (is_nil r) c) eqn:Ee; [reflexivity|].
+    destruct (encode_shape c Hc) as [H1|b0 b1 H1 Hk|b0 b1 b2 H1 Hk|b0 b1 b2 b3 H1 Hk]; cbn [app starts_with_sharp].
+    + unfold_classes. lia.
+    + destruct Hk as (? & _). lia.
+    + destruct Hk as (? & _). lia.
+    + destruct Hk as (? & _). lia.
+Qed.
+
+Lemma parse_value_string cps rest : Forall scalar cps -> sep_or_end rest = true ->
+  parse_value (esc_cps true true cps ++ rest) = Some (PStr (utf8 cps), rest).
+Proof.
+  intros H Hrest. unfold parse_value.
+  rewrite esc_head_not_sharp by auto. rewrite lex_esc by auto.
+  rewrite toks_string_ok by auto. rewrite toks_bytes by auto. reflexivity.
+Qed.
+
+Lemma hexval_digit x : x < 16 -> hexval (hex_digit false x) = Some x /\ is_sep (hex_digit false x) = false.
+Proof.
+  intro H. unfold hex_digit, hexval, is_sep, rng.
+  destruct (x <? 10) eqn:E.
+  - replace ((48 <=? 48 + x) && (48 + x <=? 57)) with true by lia. split; [f_equal|]; lia.
+  - replace ((48 <=? 87 + x) && (87 + x <=? 57)) with false by lia.
+    replace ((65 <=? 87 + x) && (87 + x <=? 70)) with false by lia.
+    replace ((97 <=? 87 + x) && (87 + x <=? 102)) with true by lia. split; [f_equal|]; lia.
+Qed.
+
+Lemma hexpairs_hex d : bytes_ok d = true -> forall rest, sep_or_end rest = true ->
+  hexpairs (hex_of false d ++ rest) = Some (d, rest).
+Proof.
+  induction d as [|b d IH]; intros Hd rest Hrest.
+  - cbn. destruct rest as [|c t]; [reflexivity|]. cbn in Hrest. cbn [hexpairs]. rewrite Hrest. reflexivity.
+  - cbn in Hd. apply andb_prop in Hd. destruct Hd as [Hb Hd]. unfold byte_ok in Hb.
+    unfold hex_of. cbn [flat_map]. fold (hex_of false d). unfold hex_byte. cbn [app].
+    destruct (hexval_digit (b / 16)) as [E1 S1]. { lia. }
+    destruct (hexval_digit (b mod 16)) as [E2 _]. { lia. }
+    cbn [hexpairs]. rewrite S1, E1, E2, IH by assumption. cbn [push]. do 3 f_equal. lia.
+Qed.
+
+Lemma parse_value_hex d rest : d <> [] -> bytes_ok d = true -> sep_or_end rest = true ->
+  parse_value (35 :: hex_of false d ++ rest) = Some (PHex d, rest).
+Proof.
+  intros Hne Hd Hrest. unfold parse_value. cbn [starts_with_sharp tl]. change (35 =? 35) with true. cbv iota.
+  rewrite hexpairs_hex by assumption. destruct d; [congruence|reflexivity].
+Qed.
+
+(* ---------- decimal arcs and dotted OIDs ---------- *)
+Lemma bytes_of_uint_digits u : forallb is_digit (bytes_of_uint u) = true.
+Proof. induction u; cbn [bytes_of_uint forallb]; try rewrite IHu; reflexivity. Qed.
+
+Lemma dec_N_shape n : dec_N n = [48] \/
+  exists c r, dec_N n = c :: r /\ 49 <= c <= 57 /\ forallb is_digit r = true.
+Proof.
+  unfold dec_N.
+  assert (E : N.to_uint n = Decimal.unorm (N.to_uint n)).
+  { rewrite <- (DecimalN.Unsigned.to_of (N.to_uint n)). now rewrite DecimalN.Unsigned.of_to. }
+  rewrite E. unfold Decimal.unorm.
+  pose proof (nzhead_nonzero (N.to_uint n)) as Hnz.
+  destruct (Decimal.nzhead (N.to_uint n)) as [|u|u|u|u|u|u|u|u|u|u]; [left; reflexivity| | | | | | | | | |].
+  - exfalso. apply (Hnz u). reflexivity.
+  - right. eexists _, _. cbn [bytes_of_uint]. split; [reflexivity|]. split; [lia|apply bytes_of_uint_digits].
+  - right. eexists _, _. cbn [bytes_of_uint]. split; [reflexivity|]. split; [lia|apply bytes_of_uint_digits].
+  - right. eexists _, _. cbn [bytes_of_uint]. split; [reflexivity|]. split; [lia|apply bytes_of_uint_digits].
+  - right. eexists _, _. cbn [bytes_of_uint]. split; [reflexivity|]. split; [lia|apply bytes_of_uint_digits].
+  - right. eexists _, _. cbn [bytes_of_uint]. split; [reflexivity|]. split; [lia|apply bytes_of_uint_digits].
+  - right. eexists _, _. cbn [bytes_of_uint]. split; [reflexivity|]. split; [lia|apply bytes_of_uint_digits].
+  - right. eexists _, _. cbn [bytes_of_uint]. split; [reflexivity|]. split; [lia|apply bytes_of_uint_digits].
+  - right. eexists _, _. cbn [bytes_of_uint]. split; [reflexivity|]. split; [lia|apply bytes_of_uint_digits].
+  - right. eexists _, _. cbn [bytes_of_uint]. split; [reflexivity|]. split; [lia|apply bytes_of_uint_digits].
+Qed.
+
+Lemma dec_N_digits n : forallb is_digit (dec_N n) = true /\ dec_N n <> [].
+Proof.
+  destruct (dec_N_shape n) as [E|(c & r & E & Hc & Hr)]; rewrite E; split; try discriminate; [reflexivity|].
+  cbn [forallb]. rewrite Hr. unfold is_digit, rng. lia.
+Qed.
+
+Lemma bytes_of_uint_inj u : forall u', bytes_of_uint u = bytes_of_uint u' -> u = u'.
+Proof.
+  induction u; destruct u'; cbn [bytes_of_uint]; intro H; try discriminate H; try reflexivity;
+    injection H as H; f_equal; auto.
+Qed.
+
+Lemma dec_N_inj n m : dec_N n = dec_N m -> n = m.
+Proof. intro H. apply DecimalN.Unsigned.to_uint_inj. now apply bytes_of_uint_inj. Qed.
+
+Definition dot_or_end (t : bytes) : Prop := t = [] \/ exists r, t = 46 :: r.
+
+Lemma digits_split d1 : forall d2 t1 t2, forallb is_digit d1 = true -> forallb is_digit d2 = true ->
+  dot_or_end t1 -> dot_or_end t2 -> d1 ++ t1 = d2 ++ t2 -> d1 = d2 /\ t1 = t2.
+Proof.
+  induction d1 as [|a d1 IH]; intros d2 t1 t2 H1 H2 T1 T2 E.
+  - destruct d2 as [|b d2]; [auto|]. cbn in *. apply andb_prop in H2. destruct H2 as [Hb _].
+    destruct T1 as [->|(r & ->)]; [discriminate|]. injection E as E _. subst b. discriminate Hb.
+  - cbn in H1. apply andb_prop in H1. destruct H1 as [Ha H1].
+    destruct d2 as [|b d2].
+    + cbn in E. destruct T2 as [->|(r & ->)]; [discriminate|]. injection E as E _. subst a. discriminate Ha.
+    + cbn in H2. apply andb_prop in H2. destruct H2 as [_ H2]. cbn in E. injection E as E1 E2. subst b.
+      destruct (IH d2 t1 t2 H1 H2 T1 T2 E2) as [-> ->]. auto.
+Qed.
+
+Lemma dotted_cons n o : dotted (n :: o) = dec_N n ++ match o with [] => [] | _ => 46 :: dotted o end.
+Proof. unfold dotted. destruct o; cbn [map join]; [now rewrite app_nil_r|reflexivity]. Qed.
+
+Lemma dotted_inj o1 : forall o2, dotted o1 = dotted o2 -> o1 = o2.
+Proof.
+  induction o1 as [|n o1 IH]; intros o2 E.
+  - destruct o2 as [|m o2]; [reflexivity|]. rewrite dotted_cons in E. change (dotted []) with (@nil N) in E.
+    destruct (dec_N_digits m) as [_ Hne]. destruct (dec_N m); [congruence|discriminate].
+  - destruct o2 as [|m o2].
+    + rewrite dotted_cons in E. change (dotted []) with (@nil N) in E.
+      destruct (dec_N_digits n) as [_ Hne]. destruct (dec_N n); [congruence|discriminate].
+    + rewrite !dotted_cons in E.
+      apply digits_split in E; try apply dec_N_digits.
+      * destruct E as [E1 E2]. apply dec_N_inj in E1. subst m. f_equal.
+        destruct o1, o2; try discriminate; [reflexivity|]. injection E2 as E2. now apply IH.
+      * destruct o1; [left|right]; eauto.
+      * destruct o2; [left|right]; eauto.
+Qed.
+
+(* ---------- the dotted form is a numericoid ---------- *)
+Lemma digit_not_dot c : is_digit c = true -> (c =? 46) = false.
+Proof. unfold is_digit, rng. lia. Qed.
+
+Definition after_number (dots : nat) (X : bytes) : bool :=
+  match X with [] => Nat.leb 1 dots | _ :: Y => noid NStart (S dots) Y end.
+
+Lemma noid_in_digits r : forallb is_digit r = true -> forall dots X, dot_or_end X ->
+  noid NIn dots (r ++ X) = after_number dots X.
+Proof.
+  induction r as [|c r IH]; intros Hr dots X HX.
+  - cbn [app]. destruct HX as [->|(Y & ->)]; reflexivity.
+  - cbn in Hr. apply andb_prop in Hr. destruct Hr as [Hc Hr]. cbn [app noid].
+    rewrite (digit_not_dot c Hc), Hc. now apply IH.
+Qed.
+
+Lemma noid_number n dots X : dot_or_end X -> noid NStart dots (dec_N n ++ X) = after_number dots X.
+Proof.
+  intro HX. destruct (dec_N_shape n) as [E|(c & r & E & Hc & Hr)]; rewrite E.
+  - destruct HX as [->|(Y & ->)]; reflexivity.
+  - cbn [app noid]. replace (c =? 46) with false by lia. replace (is_digit c) with true by (unfold is_digit, rng; lia).
+    replace (c =? 48) with false by lia. now apply noid_in_digits.
+Qed.
+
+Lemma noid_dotted o : o <> [] -> forall dots, noid NStart dots (dotted o) = Nat.leb 1 (dots + length o - 1).
+Proof.
+  induction o as [|n o IH]; intros Hne dots; [congruence|].
+  rewrite dotted_cons. destruct o as [|m o].
+  - rewrite noid_number by (left; reflexivity). cbn [after_number length]. f_equal. lia.
+  - rewrite noid_number by (right; eauto). cbn [after_number]. rewrite IH by discriminate.
+    f_equal. cbn [length]. lia.
+Qed.
+
+Lemma dotted_numericoid o : (2 <= length o)%nat -> is_numericoid (dotted o) = true.
+Proof.
+  intro H. unfold is_numericoid. rewrite noid_dotted by (destruct o; [cbn in H; lia|discriminate]).
+  apply Nat.leb_le. lia.
+Qed.
+
+Lemma dotted_chars o : forallb (fun c => is_digit c || (c =? 46)) (dotted o) = true.
+Proof.
+  induction o as [|n o IH]; [reflexivity|]. rewrite dotted_cons. rewrite forallb_app. apply andb_true_intro. split.
+  - destruct (dec_N_digits n) as [H _]. rewrite forallb_forall in *. intros x Hx. now rewrite (H x Hx).
+  - destruct o; [reflexivity|]. cbn [forallb]. now rewrite IH.
+Qed.
+
+(* ---------- the name table ---------- *)
+Fixpoint nodupb (l : list bytes) : bool :=
+  match l with
+  | [] => true
+  | x :: r => negb (existsb (bytes_eqb x) r) && nodupb r
+  end.
+Definition name_table_ok (t : name_table) : bool :=
+  forallb (fun kn => is_descr (snd kn)) t && nodupb (map snd t).
+
+Lemma bytes_eqb_eq a : forall b, bytes_eqb a b = true <-> a = b.
+Proof.
+  induction a as [|x a IH]; destruct b as [|y b]; cbn; split; intro H; try congruence; try discriminate.
+  - apply andb_prop in H. destruct H as [H1 H2]. apply N.eqb_eq in H1. apply IH in H2. congruence.
+  - injection H as -> ->. rewrite N.eqb_refl. now apply IH.
+Qed.
+
+Lemma lookup_in t o n : lookup_name t o = Some n -> In (o, n) t.
+Proof.
+  induction t as [|[k m] t IH]; cbn; [discriminate|].
+  destruct (bytes_eqb k o) eqn:E.
+  - intros [= ->]. apply bytes_eqb_eq in E. subst. now left.
+  - intro H. right. auto.
+Qed.
+
+Lemma lookup_descr t o n : name_table_ok t = true -> lookup_name t o = Some n -> is_descr n = true.
+Proof.
+  intros Ht Hl. apply andb_prop in Ht. destruct Ht as [Ht _].
+  rewrite forallb_forall in Ht. apply (Ht (o, n)). now apply lookup_in.
+Qed.
+
+Lemma descr_no_eq n : is_descr n = true -> ~ In 61 n.
+Proof.
+  destruct n as [|c r]; [discriminate|]. cbn. intros H [E|E].
+  - subst c. discriminate H.
+  - apply andb_prop in H. destruct H as [_ H]. rewrite forallb_forall in H. specialize (H 61 E). discriminate H.
+Qed.
+
+Lemma dotted_no_eq o : ~ In 61 (dotted o).
+Proof.
+  intro H. pose proof (dotted_chars o) as Hc. rewrite forallb_forall in Hc. specialize (Hc 61 H). discriminate Hc.
+Qed.
+
+Lemma attr_name_type t o : name_table_ok t = true -> (2 <= length o)%nat ->
+  is_attr_type (attr_name_in t o) = true /\ ~ In 61 (attr_name_in t o).
+Proof.
+  intros Ht Ho. unfold attr_name_in, is_attr_type. destruct (lookup_name t o) as [n|] eqn:E.
+  - pose proof (lookup_descr t o n Ht E) as Hd. rewrite Hd. split; [reflexivity|now apply descr_no_eq].
+  - rewrite dotted_numericoid by assumption. split; [apply orb_true_r|apply dotted_no_eq].
+Qed.
+
+Lemma split_eq_app n v : ~ In 61 n -> split_eq (n ++ 61 :: v) = Some (n, v).
+Proof.
+  induction n as [|c n IH]; intro H; cbn [app split_eq].
+  - reflexivity.
+  - replace (c =? 61) with false by (symmetry; apply N.eqb_neq; intro; subst; apply H; now left).
+    rewrite IH; [reflexivity|]. intro; apply H; now right.
+Qed.
+
+(* ---------- injectivity of the displayed type ---------- *)
+Lemma nodupb_in_unique (t : name_table) : nodupb (map snd t) = true ->
+  forall o1 o2 n, In (o1, n) t -> In (o2, n) t -> o1 = o2.
+Proof.
+  induction t as [|[k m] t IH]; cbn [map nodupb snd]; intros H o1 o2 n H1 H2; [destruct H1|].
+  apply andb_prop in H. destruct H as [Hx Hr].
+  assert (Hnot : forall o, In (o, m) t -> False).
+  { intros o Ho. apply negb_true_iff in Hx.
+    assert (Ht : existsb (bytes_eqb m) (map snd t) = true).
+    { apply existsb_exists. exists m. split; [now apply (in_map snd t (o, m))|now apply bytes_eqb_eq]. }
+    congruence. }
+  destruct H1 as [E1|H1], H2 as [E2|H2].
+  - congruence.
+  - injection E1 as -> ->. exfalso. eauto.
+  - injection E2 as -> ->. exfalso. eauto.
+  - eauto.
+Qed.
+
+Lemma descr_not_dotted n o : is_descr n = true -> n <> dotted o.
+Proof.
+  intros Hd E. destruct n as [|c r]; [discriminate|]. cbn in Hd. apply andb_prop in Hd. destruct Hd as [Ha _].
+  pose proof (dotted_chars o) as Hc. rewrite <- E in Hc. cbn in Hc. apply andb_prop in Hc. destruct Hc as [Hc _].
+  unfold is_alpha, is_digit, rng in *. lia.
+Qed.
+
+Lemma attr_name_in_inj t : name_table_ok t = true ->
+  forall o1 o2, attr_name_in t o1 = attr_name_in t o2 -> o1 = o2.
+Proof.
+  intros Ht o1 o2. unfold attr_name_in.
+  destruct (lookup_name t o1) as [n1|] eqn:E1, (lookup_name t o2) as [n2|] eqn:E2; intro E.
+  - subst n2. apply andb_prop in Ht. destruct Ht as [_ Hn].
+    eapply nodupb_in_unique; eauto using lookup_in.
+  - exfalso. eapply descr_not_dotted; eauto using lookup_descr.
+  - exfalso. symmetry in E. eapply descr_not_dotted; eauto using lookup_descr.
+  - now apply dotted_inj.
+Qed.
+
+Lemma x500_names_ok : name_table_ok x500_names = true.
+Proof. vm_compute. reflexivity. Qed.
+
+(* ---------- what a name is, and what the reader must return for it ---------- *)
+(* a string value is valid UTF-8 (what PrintableString, IA5String and UTF8String contents are);
+   any other value is known by its DER encoding, which must exist *)
+Definition value_ok (v : govalue) : Prop :=
+  match v with
+  | GStr s => valid_utf8 s = true
+  | _ => marshal v <> [] /\ bytes_ok (marshal v) = true
+  end.
+Definition atv_ok (a : atv) : Prop := (2 <= length (fst a))%nat /\ value_ok (snd a).
+Definition name_ok (rdns : list (list atv)) : Prop := Forall (Forall atv_ok) rdns.
+
+Definition pv (v : govalue) : pvalue :=
+  match v with GStr s => PStr s | _ => PHex (marshal v) end.
+Definition patv_in (t : name_table) (a : atv) : patv := (attr_name_in t (fst a), pv (snd a)).
+Definition patv_of : atv -> patv := patv_in x500_names.
+
+Definition fixed (var : variant) : Prop := v_nul var = true /\ v_hex var = true.
+
+Lemma parse_value_render var v rest : fixed var -> value_ok v -> sep_or_end rest = true ->
+  parse_value (render_value var v ++ rest) = Some (pv v, rest).
+Proof.
+  intros [Hn Hh] Hv Hrest. unfold render_value. rewrite Hh, Hn.
+  destruct v as [s|z| |p m]; cbn [value_ok pv] in *.
+  - destruct (valid_utf8_scalars s Hv) as (cps & Hc & ->). rewrite escape_utf8 by assumption. now apply parse_value_string.
+  - destruct Hv. cbn [app]. now apply parse_value_hex.
+  - destruct Hv. cbn [app]. now apply parse_value_hex.
+  - destruct Hv. cbn [app]. now apply parse_value_hex.
+Qed.
+
+Lemma parse_atv_render var t a rest : fixed var -> name_table_ok t = true -> atv_ok a -> sep_or_end rest = true ->
+  parse_atv (render_atv var t a ++ rest) = Some (patv_in t a, rest).
+Proof.
+  intros Hf Ht [Ho Hv] Hrest. unfold render_atv, parse_atv.
+  destruct (attr_name_type t (fst a) Ht Ho) as [Hty Hne].
+  rewrite <- !app_assoc. cbn [app]. rewrite split_eq_app by assumption. rewrite Hty.
+  rewrite parse_value_render by assumption. reflexivity.
+Qed.
+
+(* ---------- RDNs joined by '+', names joined by ',' ---------- *)
+Section Structure.
+  Variable var : variant.
+  Variable t : name_table.
+  Hypothesis Hf : fixed var.
+  Hypothesis Ht : name_table_ok t = true.
+
+  Let ratv := render_atv var t.
+  Let rrdn (r : list atv) : bytes := join [43] (map ratv r).
+  Definition tail_text (rs : list (list atv)) : bytes :=
+    match rs with [] => [] | _ => 44 :: join [44] (map rrdn rs) end.
+
+  Lemma join_cons_tail r rs : join [44] (map rrdn (r :: rs)) = rrdn r ++ tail_text rs.
+  Proof. destruct rs; cbn [map join tail_text]; [now rewrite app_nil_r|reflexivity]. Qed.
+
+  Lemma tail_sep rs : sep_or_end (tail_text rs) = true.
+  Proof. destruct rs; reflexivity. Qed.
+
+  Definition total (rs : list (list atv)) : nat := length (concat rs).
+
+  Lemma parse_structure rs :
+    Forall (fun r => r <> [] /\ Forall atv_ok r) rs -> rs <> [] ->
+    forall fuel, (total rs <= fuel)%nat ->
+    parse_rdns_fuel fuel (join [44] (map rrdn rs)) = Some (map (map (patv_in t)) rs).
+  Proof.
+    induction rs as [|r rs IHrs]; intros Hall Hne; [congruence|].
+    apply Forall_cons_iff in Hall. destruct Hall as [[Hr Hok] Hall].
+    rewrite join_cons_tail.
+    (* inner induction over the attributes of the first RDN *)
+    induction r as [|a r IHr]; [congruence|]. intros fuel Hfuel.
+    apply Forall_cons_iff in Hok. destruct Hok as [Ha Hok].
+    unfold total in *. cbn [concat] in Hfuel. rewrite app_length in Hfuel. cbn [length] in Hfuel.
+    destruct fuel as [|f]; [lia|].
+    destruct r as [|a2 r].
+    - (* last attribute of this RDN *)
+      unfold rrdn. cbn [map join parse_rdns_fuel].
+      fold ratv. unfold ratv. rewrite (parse_atv_render var t a (tail_text rs) Hf Ht Ha (tail_sep rs)).
+      destruct rs as [|r2 rs]; [reflexivity|].
+      cbn [tail_text]. rewrite IHrs; [|assumption|discriminate|].
+      + cbn [map]. reflexivity.
+      + cbn [concat app length]. cbn [concat app length] in Hfuel. lia.
+    - (* more attributes follow in the same RDN *)
+      assert (Etext : rrdn (a :: a2 :: r) ++ tail_text rs = ratv a ++ 43 :: (rrdn (a2 :: r) ++ tail_text rs)).
+      { unfold rrdn. cbn [map join]. rewrite <- !app_assoc. reflexivity. }
+      rewrite Etext. cbn [parse_rdns_fuel].
+      assert (Hsep : sep_or_end (43 :: (rrdn (a2 :: r) ++ tail_text rs)) = true) by reflexivity.
+      unfold ratv at 1. rewrite (parse_atv_render var t a _ Hf Ht Ha Hsep).
+      assert (IH : parse_rdns_fuel f (rrdn (a2 :: r) ++ tail_text rs)
+                   = Some (map (map (patv_in t)) ((a2 :: r) :: rs))).
+      { apply IHr; [discriminate|assumption|discriminate|]. cbn [concat]. rewrite app_length. cbn [length] in *. lia. }
+      rewrite IH. cbn [map]. reflexivity.
+  Qed.
+
+  Lemma ratv_length a : (1 <= length (ratv a))%nat.
+  Proof. unfold ratv, render_atv. rewrite !app_length. cbn. lia. Qed.
+
+  Lemma rrdn_length r : (length r <= length (rrdn r))%nat.
+  Proof.
+    unfold rrdn. induction r as [|a r IH]; [cbn; lia|].
+    destruct r as [|a2 r]; cbn [map join length] in *.
+    - pose proof (ratv_length a). lia.
+    - rewrite !app_length. pose proof (ratv_length a). cbn [length]. lia.
+  Qed.
+
+  Lemma text_length rs : (total rs <= length (join [44%N] (map rrdn rs)))%nat.
+  Proof.
+    unfold total. induction rs as [|r rs IH]; [cbn; lia|].
+    rewrite join_cons_tail. cbn [concat]. rewrite !app_length. pose proof (rrdn_length r).
+    destruct rs as [|r2 rs]; cbn [tail_text length concat] in *; lia.
+  Qed.
+
+  Lemma parse_rdns_structure rs :
+    Forall (fun r => r <> [] /\ Forall atv_ok r) rs ->
+    parse_rdns (join [44] (map rrdn rs)) = Some (map (map (patv_in t)) rs).
+  Proof.
+    intro Hall. destruct rs as [|r rs]; [reflexivity|].
+    unfold parse_rdns.
+    pose proof (text_length (r :: rs)) as Hlen.
+    assert (Hpos : (1 <= total (r :: rs))%nat).
+    { apply Forall_inv in Hall. destruct Hall as [Hr _]. unfold total. cbn [concat]. rewrite app_length.
+      destruct r; [congruence|cbn; lia]. }
+    destruct (join [44] (map rrdn (r :: rs))) as [|b s] eqn:E; [cbn [length] in Hlen; lia|].
+    rewrite <- E. apply parse_structure; [assumption|discriminate|]. rewrite E. exact Hlen.
+  Qed.
+End Structure.
+
+Lemma filter_nonempty_ok (rdns : list (list atv)) : name_ok rdns ->
+  Forall (fun r => r <> [] /\ Forall atv_ok r) (filter nonempty (rev rdns)).
+Proof.
+  intro H. apply Forall_forall. intros r Hr. apply filter_In in Hr. destruct Hr as [Hin Hne].
+  split; [destruct r; [discriminate|discriminate]|].
+  apply in_rev in Hin. unfold name_ok in H. rewrite Forall_forall in H. now apply H.
+Qed.
+
+Lemma concat_filter_nonempty {A} (l : list (list A)) : concat (filter nonempty l) = concat l.
+Proof. induction l as [|x l IH]; [reflexivity|]. destruct x; cbn; [assumption|now rewrite IH]. Qed.
+
+(* ---------- the round trip ---------- *)
+Lemma roundtrip_rdns_gen var t rdns : fixed var -> v_plus var = true -> name_table_ok t = true -> name_ok rdns ->
+  parse_rdns (render_dn_gen var t rdns) = Some (map (map (patv_in t)) (filter nonempty (rev rdns))).
+Proof.
+  intros Hf Hp Ht Hn. unfold render_dn_gen. rewrite Hp.
+  now apply parse_rdns_structure; [| |apply filter_nonempty_ok].
+Qed.
+
+Lemma current_fixed : fixed current /\ v_plus current = true.
+Proof. repeat split. Qed.
+
+Lemma roundtrip_rdns rdns : name_ok rdns ->
+  parse_rdns (render_dn rdns) = Some (map (map patv_of) (filter nonempty (rev rdns))).
+Proof.
+  intro H. destruct current_fixed as [Hf Hp]. now apply roundtrip_rdns_gen; [| |apply x500_names_ok|].
+Qed.
+
+Lemma roundtrip rdns : name_ok rdns ->
+  parse_dn (render_dn rdns) = Some (map patv_of (concat (rev rdns))).
+Proof.
+  intro H. unfold parse_dn. rewrite roundtrip_rdns by assumption.
+  rewrite <- concat_map. rewrite concat_filter_nonempty. reflexivity.
+Qed.
+
+(* ---------- INTEGER values are always printable in '#' form ---------- *)
+Lemma int_len_bound fuel : forall n z, (int_len fuel n z <= n + fuel)%nat.
+Proof.
+  induction fuel as [|f IH]; intros n z; cbn [int_len]; [lia|].
+  destruct (_ && _); [lia|]. specialize (IH (S n) z). lia.
+Qed.
+
+Lemma N_to_be_ok w : forall n, bytes_ok (N_to_be w n) = true.
+Proof.
+  induction w as [|w IH]; intro n; [reflexivity|]. cbn [N_to_be]. unfold bytes_ok in *.
+  rewrite forallb_app, IH. cbn. unfold byte_ok.
+  assert (n mod 256 < 256) by (apply N.mod_lt; discriminate). lia.
+Qed.
+
+Lemma int_value_ok z : value_ok (GInt z).
+Proof.
+  cbn [value_ok marshal]. unfold int64_der. split; [discriminate|].
+  cbn [bytes_ok forallb]. fold (bytes_ok (N_to_be (int_len 8 1 z) (Z.to_N (z mod 2 ^ (8 * Z.of_nat (int_len 8 1 z)))))).
+  rewrite N_to_be_ok. pose proof (int_len_bound 8 1 z). unfold byte_ok. lia.
+Qed.
+
+(* ---------- consequences ---------- *)
+Definition akey (a : atv) : oid * pvalue := (fst a, pv (snd a)).
+
+Lemma attr_name_inj o1 o2 : attr_name o1 = attr_name o2 -> o1 = o2.
+Proof. apply attr_name_in_inj. exact x500_names_ok. Qed.
+
+Lemma patv_akey_inj a b : patv_of a = patv_of b -> akey a = akey b.
+Proof. unfold patv_of, patv_in, akey. intros [= H1 H2]. apply attr_name_inj in H1. congruence. Qed.
+
+Lemma map_inj_lift {A B C} (f : A -> B) (g : A -> C) (H : forall a b, f a = f b -> g a = g b) :
+  forall l l', map f l = map f l' -> map g l = map g l'.
+Proof.
+  induction l as [|x l IH]; destruct l' as [|y l']; cbn; intro E; try discriminate; [reflexivity|].
+  injection E as E1 E2. f_equal; auto.
+Qed.
+
+Lemma unambiguous r1 r2 : name_ok r1 -> name_ok r2 -> render_dn r1 = render_dn r2 ->
+  map (map akey) (filter nonempty (rev r1)) = map (map akey) (filter nonempty (rev r2)).
+Proof.
+  intros H1 H2 E. pose proof (roundtrip_rdns r1 H1) as P1. pose proof (roundtrip_rdns r2 H2) as P2.
+  rewrite E in P1. rewrite P1 in P2. injection P2 as P2.
+  revert P2. apply map_inj_lift. apply map_inj_lift. exact patv_akey_inj.
+Qed.
+
+Lemma length_concat_rev {A} (l : list (list A)) : length (concat (rev l)) = length (concat l).
+Proof.
+  induction l as [|x l IH]; [reflexivity|]. cbn [rev concat].
+  rewrite concat_app, !app_length, IH. cbn [concat]. rewrite app_nil_r. lia.
+Qed.
+
+Lemma no_forgery rdns : name_ok rdns ->
+  exists l, parse_dn (render_dn rdns) = Some l /\ length l = length (concat rdns).
+Proof.
+  intro H. eexists. split; [now apply roundtrip|].
+  rewrite map_length. apply length_concat_rev.
+Qed.
+
+(* ---------- one value, end to end ---------- *)
+Lemma value_roundtrip s rest : valid_utf8 s = true -> sep_or_end rest = true ->
+  parse_value (escape_gen true s ++ rest) = Some (PStr s, rest).
+Proof.
+  intros Hv Hrest. destruct (valid_utf8_scalars s Hv) as (cps & Hc & ->).
+  rewrite escape_utf8 by assumption. now apply parse_value_string.
+Qed.
+
+Lemma from_raw_dn_roundtrip dn rdns : name_ok rdns ->
+  parse_dn (from_raw_dn dn (Some rdns)) = Some (map patv_of (concat (rev rdns))).
+Proof. exact (roundtrip rdns). Qed.
+
+(* ---------- the code before the repairs (witnesses; see known_findings.json) ---------- *)
+Definition cn : oid := [2; 5; 4; 3].
+Definition ldap_rows_before : name_table :=
+  [([2; 5; 4; 95], bs "ldapUrl"); ([2; 5; 4; 96], bs "ldapUrl")].
+
+Lemma names_injective_refuted_before :
+  exists o1 o2, o1 <> o2 /\ attr_name_in ldap_rows_before o1 = attr_name_in ldap_rows_before o2.
+Proof. exists [2; 5; 4; 95], [2; 5; 4; 96]. split; [discriminate|reflexivity]. Qed.
+
+Lemma nul_refuted_before :
+  exists rdns, name_ok rdns /\ parse_dn (render_dn_gen original x500_names rdns) = None.
+Proof.
+  exists [[(cn, GStr [0])]]. split.
+  - repeat constructor.
+  - vm_compute. reflexivity.
+Qed.
+
+Lemma multivalued_refuted_before :
+  exists r1 r2, name_ok r1 /\ name_ok r2 /\
+    render_dn_gen (mkvariant true false true) x500_names r1 = render_dn_gen (mkvariant true false true) x500_names r2 /\
+    map (map akey) (filter nonempty (rev r1)) <> map (map akey) (filter nonempty (rev r2)).
+Proof.
+  exists [[(cn, GStr (bs "a")); ([2; 5; 4; 10], GStr (bs "b"))]],
+         [[([2; 5; 4; 10], GStr (bs "b"))]; [(cn, GStr (bs "a"))]].
+  split; [repeat constructor|]. split; [repeat constructor|]. split; [vm_compute; reflexivity|].
+  vm_compute. discriminate.
+Qed.
+
+Lemma nonstring_refuted_before :
+  exists a b, akey a <> akey b /\
+    render_dn_gen (mkvariant true true false) x500_names [[a]] = render_dn_gen (mkvariant true true false) x500_names [[b]].
+Proof.
+  exists (cn, GInt 5), (cn, GStr (bs "%!s(int64=5)")). split; [vm_compute; discriminate|vm_compute; reflexivity].
+Qed.
+
+(* a value without DER (nil; never produced by FromRawDN since F31e) is printed as a bare '#', which cannot be read *)
+Lemma nil_value_unreadable : parse_dn (render_dn [[(cn, GNil)]]) = None.
+Proof. vm_compute. reflexivity. Qed.
+
+(* ---------- the hypotheses are met by non-trivial names ---------- *)
+Definition tricky_name : list (list atv) :=
+  [ [([2; 5; 4; 6], GStr (bs "ZZ"))];
+    [];
+    [(cn, GStr ([32; 35; 44; 43; 34; 92; 60; 62; 59; 61; 0; 10; 195; 169; 240; 159; 152; 128; 32]));
+     ([2; 5; 4; 96], GInt (-129));
+     ([1; 2; 840; 113549; 1; 9; 1], GStr [])];
+    [([0; 9; 2342; 19200300; 100; 1; 25], GStr (bs "#"));
+     ([2; 5; 4; 10], GStr (bs " "));
+     ([2; 999; 3], GOther (bs "x") [4; 1; 255])] ].
+
+Lemma tricky_name_ok : name_ok tricky_name.
+Proof.
+  unfold tricky_name, name_ok.
+  repeat (apply Forall_cons || apply Forall_nil);
+    (split; [cbn; lia|]); try (vm_compute; reflexivity); try apply int_value_ok.
+  cbn. split; [discriminate|reflexivity].
+Qed.
+
+Lemma tricky_name_text :
+  render_dn tricky_name =
+    bs "0.9.2342.19200300.100.1.25=\#+O=\ +2.999.3=#0401ff,CN=\ #\,\+\""\\\<\>\;=\00" ++ [10; 195; 169; 240; 159; 152; 128]
+    ++ bs "\ +tagLocation=#0202ff7f+1.2.840.113549.1.9.1=,C=ZZ".
+Proof. vm_compute. reflexivity. Qed.
